@@ -312,6 +312,29 @@ def run(prop, tier):
         else:
             rep.violation("-".join(sorted(v["clauses"])), payload)
     rep.notes["steps_failing_clauses_of_the_sibling_property"] = other
+    if prop == "C05":
+        # datastores that raise, through the execute wrapper of every front-end (exception 04, nothing else happens)
+        import servercheck
+        import server_drv
+        r2 = random.Random(seed() * 7 + 505)
+        stc = []
+        for k, (fe, kind) in enumerate(servercheck.fe_kinds(tier) * (2 if tier == "quick" else 20)):
+            cfgs = {"single": 1, "hosted": [1], "broadcast": 0, "ignore": 0}
+            ctx = dm.layout(1, dm.seq_block(0, 40, fail=1), dm.seq_block(0, 40), dm.seq_block(0, 40, fail=r2.choice([0, 1])), dm.seq_block(0, 40, fail=1))
+            case = servercheck.Case("f%d" % k, "strict", fe, kind, cfgs, [[0, ctx]])
+            reqs = [(1, r2.randint(0, 65535), servercheck.rand_request(r2, allow_other=False)) for _ in range(r2.randint(1, 5))]
+            case.add_conn(servercheck.build_frames(kind, reqs))
+            case.schedule = servercheck.schedule_for(case, fe, r2, "frames")
+            stc.append(servercheck.run_case(case))
+        sv, sst = validate_traces("ServerTrace", "ServerTrace.cfg", stc, timeout=3000)
+        rep.add_tv(sst, len(stc), sum(len(t["ev"]) for t in stc))
+        for t in stc:
+            v = sv[t["id"]]
+            if v["status"] == "FAIL":
+                rep.violation("frontend-%s-%s" % (t["fe"], "-".join(sorted(v["clauses"]))),
+                              {"property": prop, "engine": "ServerTrace", "trace": t, "verdict": v})
+            else:
+                rep.distinct(("failing-store", t["fe"], t["kind"], len(t["ev"])))
     if prop == "C04":
         # "reached through the decoded-request execute path of every framer": pipelined data-access histories through the
         # seven real front-ends on every framing they accept, judged by ServerTrace; C04 owns the data / store clauses
